@@ -32,7 +32,8 @@ class Down(object):
         self.mode = 'cmd'
         self.nrcpt = 0
         self.acc = []
-        self.trans = 0
+        self.trans = 0          # index of the current transaction (= MAIL commands seen before it) on this connection
+        self.nmail = 0
         self.marker = 0
         self.act('banner', 0)
 
@@ -63,7 +64,7 @@ class Down(object):
         if self.stalled or self.closed_by_peer:
             return None
         self.drv.log(t='peer', stage=stage, i=i, act=a if isinstance(a, str) else 'code', code=a if isinstance(a, int) else 0,
-                     conn=self.conn, trans=self.trans)
+                     conn=self.conn, trans=self.trans, m=self.marker if stage in ('mail', 'rcpt', 'data', 'eod', 'rset') else 0)
         if a == 'stall':
             self.stalled = True
             return None
@@ -107,6 +108,8 @@ class Down(object):
                     import re as _re
                     mm = _re.search(rb'<sender(\d+)@', line)
                     self.marker = int(mm.group(1)) if mm else 0
+                    self.trans = self.nmail
+                    self.nmail += 1
                     self.act('mail', 0)
                 elif verb == b'RCPT':
                     r = self.act('rcpt', self.nrcpt)
@@ -146,7 +149,6 @@ class Down(object):
                 else:
                     self.act('eod', 0)
                 self.acc = []
-                self.trans += 1
 
     def recv(self, n):
         while not self.out:
@@ -189,8 +191,10 @@ class RelayRun(object):
             Event().wait()
         return Down(self, self.scripts[min(k, len(self.scripts) - 1)], self.lmtp, self.pipelining, k)
 
-    def attempt(self, req, nrcpt, sender=None):
-        env = Envelope(sender or 'sender%d@a.example' % req, ['rcpt%d-%d@b.example' % (req, i) for i in range(nrcpt)])
+    def attempt(self, req, nrcpt, sender=None, addrs=None):
+        """addrs: optional list (one entry per recipient) of address numbers, so that an address can be listed twice"""
+        env = Envelope(sender or 'sender%d@a.example' % req,
+                       ['rcpt%d-%d@b.example' % (req, (addrs[i] if addrs else i)) for i in range(nrcpt)])
         env.parse(b'Subject: req %d\r\nX-Marker: m%d\r\n\r\nbody of request %d\r\n' % (req, req, req))
         self.log(t='call', req=req, nrcpt=nrcpt)
 
